@@ -60,9 +60,9 @@ def extent_rounding(ctx):
     fixed = T.cmp('is not', V('binsize'), T.NONE)
     got = {'fixed': [], 'var': []}
     for y in ys:
-        if (fixed, True) in y.guards:
+        if y.under(fixed):
             got['fixed'].append(y)
-        elif (fixed, False) in y.guards:
+        elif y.under(fixed, False):
             got['var'].append(y)
         else:
             ctx.bad(R, 'dispatch', ctx.where(fa, y), found=[(T.show(c), p) for c, p in y.guards],
